@@ -322,7 +322,7 @@ def g_points(ctx, rng, i):
     if cls != 3 and n >= 3:
         _try(g.harmonic_set, g.Point(a * 2), g.Point(b), g.Point(-c))
     # collections
-    shape = gen.pick(rng, [(3,), (2, 2)])
+    shape = gen.pick(rng, [(3,), (2, 2), (1,), (3, 1), (1, 2)])
     k = int(np.prod(shape))
     cols = [[], [], [], []]
     for _ in range(k):
@@ -332,6 +332,13 @@ def g_points(ctx, rng, i):
             cols[j].append(_on_line(aa, bb, tt[j]))
     PC = [g.PointCollection(np.stack(cc).reshape(shape + (n,))) for cc in cols]
     _try(g.crossratio, *PC)
+    # outer-product broadcasting: a, b along one axis (k, 1), c, d along the other (1, k) -- points of one line
+    kk = 3
+    outer_pts = [g.PointCollection(np.stack([_on_line(a, b, PARAMS[int(j)]) for j in rng.choice(len(PARAMS), size=kk)]).reshape(sh + (n,)))
+                 for sh in ((kk, 1), (kk, 1), (1, kk), (1, kk))]
+    _try(g.crossratio, *outer_pts)
+    if n >= 3:
+        _try(g.harmonic_set, outer_pts[0], outer_pts[2], g.Point(_on_line(a, b, 5)))
     # the first two arguments the same single point, the others collections: cross ratio 1 at every position
     CL = [g.PointCollection(np.stack([_on_line(a, b, PARAMS[int(j)]) for j in rng.choice(len(PARAMS), size=k)]).reshape(shape + (n,))) for _ in range(2)]
     _try(g.crossratio, P[0], P[0], CL[0], CL[1])
